@@ -1,7 +1,7 @@
 (* No reachable state of the system (Model/Sys.v) is stuck while the I/O thread lives: from
    every reachable state there is a continuation - drain the caller's mailbox, write the
    out-buffer, let the server read and answer, read the replies, receive - after which a
-   blocked caller has its reply.  Stdlib only, no axioms. *)
+   blocked caller has returned.  Stdlib only, no axioms. *)
 From Amq Require Import Lib.Base Model.Sys Proofs.Sys.
 
 Section Live.
@@ -12,52 +12,202 @@ Section Live.
 
   Notation step := (ystep answer bound qcap).
   Notation run := (yrun answer bound qcap).
-  Notation YI := (YInv answer qcap progs).
+  Notation YI := (YInv answer progs).
 
   Lemma run_app a b s : run s (a ++ b) = run (run s a) b.
   Proof. unfold yrun. apply fold_left_app. Qed.
 
-  (* phase facts: what each phase leaves behind, for a live, non-failed system *)
   Definition live (s : sys) : Prop := y_dead s = false /\ y_fail s = false.
 
-  Lemma live_step_not_die s a : live s -> YI s -> a <> ADie -> live (step s a).
-  Proof.
-    intros [Hd Hf] Hinv Ha. split.
-    - unfold ystep. rewrite Hf, Hd.
-      destruct a; try contradiction; cbn.
-      + destruct (yc_wait _ || yc_failed _); [exact Hd|]. destruct (yc_prog _); [exact Hd|].
-        destruct (_ <? bound); exact Hd.
-      + destruct (yc_wait _); [|exact Hd]. destruct (yc_replyq _); exact Hd.
-      + exact Hd.
-      + exact Hd.
-      + destruct (y_outwire s) as [|[? ?] ?]; exact Hd.
-      + destruct (yc_pend _); exact Hd.
-      + destruct (y_inwire s) as [|[? ?] ?]; [exact Hd|]. destruct (_ <? qcap); exact Hd.
-    - exact (proj1 (YInv_step bound Hq a Hinv)).
-  Qed.
+  (* the stages behind the reply queue, for caller n *)
+  Record staged (s : sys) (n : N) (mail outbuf outwire pend inwire : bool) : Prop := {
+    st_mail : mail = true -> yc_mail (y_ch s n) = [];
+    st_outbuf : outbuf = true -> y_outbuf s = [];
+    st_outwire : outwire = true -> y_outwire s = [];
+    st_pend : pend = true -> yc_pend (y_ch s n) = [];
+    st_inwire : inwire = true -> y_inwire s = [] }.
 
-  (* the continuation: everything of everybody is moved forward, stage by stage *)
-  Definition flush (s : sys) (n : N) : list act :=
-    [ADrain n (length (yc_mail (y_ch s n))); AWrite (length (y_outbuf s) + length (yc_mail (y_ch s n)))].
+  Ltac live_unfold Hl := destruct Hl as [Hd Hf]; unfold ystep; rewrite Hf, Hd.
 
-  Lemma drain_all s n : live s ->
+  (* 1. the whole mailbox of n goes to the out-buffer *)
+  Lemma phase_drain s n : live s -> YI s ->
     let s' := step s (ADrain n (length (yc_mail (y_ch s n)))) in
-    yc_mail (y_ch s' n) = [] /\ y_outwire s' = y_outwire s /\ y_inwire s' = y_inwire s /\
-    (forall m, yc_pend (y_ch s' m) = yc_pend (y_ch s m)) /\
-    (forall m, yc_replyq (y_ch s' m) = yc_replyq (y_ch s m)) /\
-    (forall m, yc_wait (y_ch s' m) = yc_wait (y_ch s m)).
+    live s' /\ YI s' /\ staged s' n true false false false false /\ yc_wait (y_ch s' n) = yc_wait (y_ch s n).
   Proof.
-    intros [Hd Hf]. cbn zeta. unfold ystep. rewrite Hf, Hd. cbn [y_ch y_outwire y_inwire].
-    rewrite yupd_same. cbn [yc_mail]. rewrite skipn_all. repeat split; try reflexivity;
-      intro m; unfold yupd; destruct (m =? n) eqn:E; try reflexivity;
-      apply N.eqb_eq in E; subst; reflexivity.
+    intros Hl Hi. cbn zeta. split; [|split; [apply YInv_step; assumption|split]].
+    - live_unfold Hl. split; reflexivity.
+    - live_unfold Hl. constructor; try discriminate. intros _. cbn [y_ch]. rewrite yupd_same. cbn [yc_mail].
+      apply skipn_all.
+    - live_unfold Hl. cbn [y_ch]. rewrite yupd_same. reflexivity.
   Qed.
 
-  Lemma write_all s k : live s -> (length (y_outbuf s) <= k)%nat ->
-    let s' := step s (AWrite k) in
-    y_outbuf s' = [] /\ y_ch s' = y_ch s /\ y_inwire s' = y_inwire s.
+  (* 2. the whole out-buffer goes to the wire *)
+  Lemma phase_write s n : live s -> YI s -> staged s n true false false false false ->
+    let s' := step s (AWrite (length (y_outbuf s))) in
+    live s' /\ YI s' /\ staged s' n true true false false false /\ yc_wait (y_ch s' n) = yc_wait (y_ch s n).
   Proof.
-    intros [Hd Hf] Hk. cbn zeta. unfold ystep. rewrite Hf, Hd. cbn [y_outbuf y_ch y_inwire].
-    rewrite skipn_all2 by exact Hk. repeat split.
+    intros Hl Hi Hs. cbn zeta. split; [|split; [apply YInv_step; assumption|split]].
+    - live_unfold Hl. split; reflexivity.
+    - live_unfold Hl. constructor; try discriminate; intros _; cbn [y_ch y_outbuf].
+      + apply (st_mail Hs eq_refl).
+      + apply skipn_all.
+    - live_unfold Hl. reflexivity.
+  Qed.
+
+  (* 3. the server reads everything that is on the wire *)
+  Lemma phase_srvread n : forall k s, live s -> YI s -> staged s n true true false false false ->
+    length (y_outwire s) = k ->
+    let s' := run s (repeat ASrvRead k) in
+    live s' /\ YI s' /\ staged s' n true true true false false /\ yc_wait (y_ch s' n) = yc_wait (y_ch s n).
+  Proof.
+    induction k as [|k IH]; intros s Hl Hi Hs Hk.
+    - cbn [repeat]. change (run s []) with s. split; [exact Hl|]. split; [exact Hi|]. split; [|reflexivity].
+      constructor; try discriminate; intros _;
+        [apply (st_mail Hs eq_refl)|apply (st_outbuf Hs eq_refl)|apply length_zero_iff_nil; exact Hk].
+    - cbn [repeat]. change (ASrvRead :: repeat ASrvRead k) with ([ASrvRead] ++ repeat ASrvRead k).
+      rewrite run_app. change (run s [ASrvRead]) with (step s ASrvRead).
+      destruct (y_outwire s) as [|[m x] rest] eqn:Ho; [discriminate|].
+      set (s1 := step s ASrvRead).
+      assert (L1 : live s1).
+      { unfold s1. destruct Hl as [Hd Hf]. unfold ystep. rewrite Hf, Ho. split; [exact Hd|reflexivity]. }
+      assert (I1 : YI s1) by (apply YInv_step; assumption).
+      assert (E1 : y_outwire s1 = rest /\ y_outbuf s1 = y_outbuf s /\ yc_mail (y_ch s1 n) = yc_mail (y_ch s n)
+                   /\ yc_wait (y_ch s1 n) = yc_wait (y_ch s n)).
+      { unfold s1. destruct Hl as [Hd Hf]. unfold ystep. rewrite Hf, Ho. cbn [y_outwire y_outbuf y_ch].
+        split; [reflexivity|]. split; [reflexivity|].
+        destruct (is_sync x); [|split; reflexivity].
+        unfold yupd. destruct (n =? m) eqn:E; [apply N.eqb_eq in E; subst m|]; split; reflexivity. }
+      destruct E1 as (E1 & E2 & E3 & E4).
+      assert (S1 : staged s1 n true true false false false).
+      { constructor; try discriminate; intros _; [rewrite E3; apply (st_mail Hs eq_refl)|rewrite E2; apply (st_outbuf Hs eq_refl)]. }
+      assert (K1 : length (y_outwire s1) = k) by (rewrite E1; cbn in Hk; lia).
+      destruct (IH s1 L1 I1 S1 K1) as (A & B & C & D). fold s1.
+      split; [exact A|]. split; [exact B|]. split; [exact C|]. rewrite D. exact E4.
+  Qed.
+
+  (* 4. the server answers everything it owes channel n *)
+  Lemma phase_answer n : forall k s, live s -> YI s -> staged s n true true true false false ->
+    length (yc_pend (y_ch s n)) = k ->
+    let s' := run s (repeat (ASrvAnswer n) k) in
+    live s' /\ YI s' /\ staged s' n true true true true false /\ yc_wait (y_ch s' n) = yc_wait (y_ch s n).
+  Proof.
+    induction k as [|k IH]; intros s Hl Hi Hs Hk.
+    - cbn [repeat]. change (run s []) with s. split; [exact Hl|]. split; [exact Hi|]. split; [|reflexivity].
+      constructor; try discriminate; intros _;
+        [apply (st_mail Hs eq_refl)|apply (st_outbuf Hs eq_refl)|apply (st_outwire Hs eq_refl)|apply length_zero_iff_nil; exact Hk].
+    - cbn [repeat]. change (ASrvAnswer n :: repeat (ASrvAnswer n) k) with ([ASrvAnswer n] ++ repeat (ASrvAnswer n) k).
+      rewrite run_app. change (run s [ASrvAnswer n]) with (step s (ASrvAnswer n)).
+      destruct (yc_pend (y_ch s n)) as [|r rest] eqn:Hp; [discriminate|].
+      set (s1 := step s (ASrvAnswer n)).
+      assert (L1 : live s1).
+      { unfold s1. destruct Hl as [Hd Hf]. unfold ystep. rewrite Hf, Hp. split; [exact Hd|reflexivity]. }
+      assert (I1 : YI s1) by (apply YInv_step; assumption).
+      assert (E1 : yc_pend (y_ch s1 n) = rest /\ y_outwire s1 = y_outwire s /\ y_outbuf s1 = y_outbuf s /\
+                   yc_mail (y_ch s1 n) = yc_mail (y_ch s n) /\ yc_wait (y_ch s1 n) = yc_wait (y_ch s n)).
+      { unfold s1. destruct Hl as [Hd Hf]. unfold ystep. rewrite Hf, Hp. cbn [y_outwire y_outbuf y_ch].
+        rewrite yupd_same. repeat split. }
+      destruct E1 as (E1 & E2 & E3 & E4 & E5).
+      assert (S1 : staged s1 n true true true false false).
+      { constructor; try discriminate; intros _;
+          [rewrite E4; apply (st_mail Hs eq_refl)|rewrite E3; apply (st_outbuf Hs eq_refl)|rewrite E2; apply (st_outwire Hs eq_refl)]. }
+      assert (K1 : length (yc_pend (y_ch s1 n)) = k) by (rewrite E1; cbn in Hk; lia).
+      destruct (IH s1 L1 I1 S1 K1) as (A & B & C & D). fold s1.
+      split; [exact A|]. split; [exact B|]. split; [exact C|]. rewrite D. exact E5.
+  Qed.
+
+  (* 5. the I/O thread reads everything that is on the inbound wire: by the invariant every
+     reply finds room in its queue *)
+  Lemma phase_read n : forall k s, live s -> YI s -> staged s n true true true true false ->
+    length (y_inwire s) = k ->
+    let s' := run s (repeat ARead k) in
+    live s' /\ YI s' /\ staged s' n true true true true true /\ yc_wait (y_ch s' n) = yc_wait (y_ch s n).
+  Proof.
+    induction k as [|k IH]; intros s Hl Hi Hs Hk.
+    - cbn [repeat]. change (run s []) with s. split; [exact Hl|]. split; [exact Hi|]. split; [|reflexivity].
+      constructor; try discriminate; intros _;
+        [apply (st_mail Hs eq_refl)|apply (st_outbuf Hs eq_refl)|apply (st_outwire Hs eq_refl)|apply (st_pend Hs eq_refl)
+        |apply length_zero_iff_nil; exact Hk].
+    - cbn [repeat]. change (ARead :: repeat ARead k) with ([ARead] ++ repeat ARead k).
+      rewrite run_app. change (run s [ARead]) with (step s ARead).
+      destruct (y_inwire s) as [|[m v] rest] eqn:Hw; [discriminate|].
+      pose proof (YInv_step bound Hq ARead Hi) as I1.
+      pose proof (proj1 I1) as F1.
+      destruct Hl as [Hd Hf].
+      unfold ystep in I1, F1 |- *. rewrite Hf, Hd, Hw in I1, F1 |- *.
+      destruct (N.of_nat (length (yc_replyq (y_ch s m))) <? qcap) eqn:Hroom; [|cbn in F1; discriminate].
+      match goal with |- context [run ?x _] => set (s1 := x) in * end.
+      assert (E4 : yc_mail (y_ch s1 n) = yc_mail (y_ch s n) /\ yc_pend (y_ch s1 n) = yc_pend (y_ch s n) /\
+                   yc_wait (y_ch s1 n) = yc_wait (y_ch s n)).
+      { unfold s1. cbn [y_ch]. unfold yupd. destruct (n =? m) eqn:E; [apply N.eqb_eq in E; subst m|]; repeat split. }
+      destruct E4 as (E4 & E5 & E6).
+      assert (L1 : live s1) by (split; reflexivity).
+      assert (S1 : staged s1 n true true true true false).
+      { constructor; try discriminate; intros _;
+          [rewrite E4; apply (st_mail Hs eq_refl)|apply (st_outbuf Hs eq_refl)
+          |apply (st_outwire Hs eq_refl)|rewrite E5; apply (st_pend Hs eq_refl)]. }
+      assert (K1 : length (y_inwire s1) = k) by (unfold s1; cbn [y_inwire]; cbn in Hk; lia).
+      destruct (IH s1 L1 I1 S1 K1) as (A & B & C & D).
+      split; [exact A|]. split; [exact B|]. split; [exact C|]. rewrite D. exact E6.
+  Qed.
+
+  (* 6. with every stage behind it empty, a blocked caller's one item is in its reply queue *)
+  Lemma staged_all_reply s n : YI s -> staged s n true true true true true ->
+    yc_wait (y_ch s n) = true -> yc_failed (y_ch s n) = false -> yc_replyq (y_ch s n) <> [].
+  Proof.
+    intros [_ Hi] Hs Hw Hfl. destruct (Hi n) as (_ & H2 & _). specialize (H2 Hfl). rewrite Hw in H2.
+    unfold inflight in H2.
+    rewrite (st_mail Hs eq_refl), (st_outbuf Hs eq_refl), (st_outwire Hs eq_refl), (st_pend Hs eq_refl),
+            (st_inwire Hs eq_refl) in H2.
+    cbn in H2. rewrite app_nil_r in H2. intro E. rewrite E in H2. discriminate.
+  Qed.
+
+  (* THE CONTINUATION *)
+  Theorem sys_can_complete s n :
+    YI s -> live s -> yc_wait (y_ch s n) = true ->
+    exists cont, ~ In ADie cont /\ yc_wait (y_ch (run s cont) n) = false /\ live (run s cont).
+  Proof.
+    intros Hi Hl Hw.
+    assert (Hfl0 : yc_failed (y_ch s n) = false).
+    { destruct (yc_failed (y_ch s n)) eqn:E; [|reflexivity].
+      destruct Hi as [_ Hi]. destruct (Hi n) as (_ & _ & _ & H4 & _). destruct (H4 E) as [Hd _].
+      destruct Hl as [Hd' _]. congruence. }
+    set (a1 := ADrain n (length (yc_mail (y_ch s n)))).
+    destruct (phase_drain n Hl Hi) as (L1 & I1 & S1 & W1). fold a1 in L1, I1, S1, W1. set (s1 := step s a1) in *.
+    destruct (phase_write L1 I1 S1) as (L2 & I2 & S2 & W2). set (a2 := AWrite (length (y_outbuf s1))) in *. set (s2 := step s1 a2) in *.
+    destruct (phase_srvread L2 I2 S2 eq_refl) as (L3 & I3 & S3 & W3). set (c3 := repeat ASrvRead (length (y_outwire s2))) in *. set (s3 := run s2 c3) in *.
+    destruct (phase_answer L3 I3 S3 eq_refl) as (L4 & I4 & S4 & W4). set (c4 := repeat (ASrvAnswer n) (length (yc_pend (y_ch s3 n)))) in *. set (s4 := run s3 c4) in *.
+    destruct (phase_read L4 I4 S4 eq_refl) as (L5 & I5 & S5 & W5). set (c5 := repeat ARead (length (y_inwire s4))) in *. set (s5 := run s4 c5) in *.
+    assert (Hw5 : yc_wait (y_ch s5 n) = true) by (rewrite W5, W4, W3, W2, W1; exact Hw).
+    assert (Hfl5 : yc_failed (y_ch s5 n) = false).
+    { destruct (yc_failed (y_ch s5 n)) eqn:E; [|reflexivity].
+      destruct I5 as [_ I5]. destruct (I5 n) as (_ & _ & _ & H4 & _). destruct (H4 E) as [Hd _].
+      destruct L5 as [Hd' _]. congruence. }
+    pose proof (staged_all_reply I5 S5 Hw5 Hfl5) as Hr.
+    exists ([a1; a2] ++ c3 ++ c4 ++ c5 ++ [ARecv n]). split; [|split].
+    - intro Hin. apply in_app_or in Hin. destruct Hin as [Hin|Hin].
+      + destruct Hin as [E|[E|[]]]; discriminate.
+      + apply in_app_or in Hin. destruct Hin as [Hin|Hin]; [apply repeat_spec in Hin; discriminate|].
+        apply in_app_or in Hin. destruct Hin as [Hin|Hin]; [apply repeat_spec in Hin; discriminate|].
+        apply in_app_or in Hin. destruct Hin as [Hin|Hin]; [apply repeat_spec in Hin; discriminate|].
+        destruct Hin as [E|[]]; discriminate.
+    - rewrite !run_app. change (run s [a1; a2]) with s2. fold s3. fold s4. fold s5.
+      cbn [yrun fold_left]. destruct L5 as [Hd Hf]. unfold ystep. rewrite Hf, Hw5.
+      destruct (yc_replyq (y_ch s5 n)); [contradiction|]. cbn [with_ch y_ch]. rewrite yupd_same. reflexivity.
+    - rewrite !run_app. change (run s [a1; a2]) with s2. fold s3. fold s4. fold s5.
+      cbn [yrun fold_left]. pose proof L5 as [Hd Hf]. unfold ystep. rewrite Hf, Hw5.
+      destruct (yc_replyq (y_ch s5 n)); [contradiction|]. split; [exact Hd|exact Hf].
+  Qed.
+
+  (* ... from every REACHABLE state: a blocked caller can always be served while the I/O
+     thread lives - the system never deadlocks *)
+  Theorem sys_never_stuck sched n :
+    let s := run (init_sys progs) sched in
+    y_dead s = false -> yc_wait (y_ch s n) = true ->
+    exists cont, ~ In ADie cont /\ yc_wait (y_ch (run s cont) n) = false.
+  Proof.
+    cbn zeta. intros Hd Hw.
+    pose proof (YInv_run bound Hq sched (YInv_init answer progs)) as Hi.
+    destruct (@sys_can_complete _ n Hi (conj Hd (proj1 Hi)) Hw) as (cont & A & B & _).
+    exists cont. split; assumption.
   Qed.
 End Live.
